@@ -688,6 +688,45 @@ fn block_step_body<const OFF: usize>(left: u8, right: u8) {
     kani::cover!(exp.is_none() && e_l > l0 + 2 && e_r > r0 + 1);
 }
 
+/// C10 K-block-head: the same step with only the first three bytes of the block symbolic: what
+/// the carry-in (pending escape, inside a string) does to the first bytes of a block that may
+/// contain no backslash of its own. Small enough for the quick tier.
+fn block_step_head_body(left: u8, right: u8) {
+    let w: [u8; 3] = kani::any();
+    let mut d = [b'x'; 64];
+    d[0] = w[0];
+    d[1] = w[1];
+    d[2] = w[2];
+    let in_str: bool = kani::any();
+    let esc: bool = kani::any();
+    let l0: usize = kani::any();
+    let r0: usize = kani::any();
+    kani::assume(l0 < (1 << 20) && r0 <= l0);
+    kani::assume(in_str || !esc);
+    let (exp, e_in, e_esc, e_l, e_r) = ref_block_step(&d, in_str, esc, l0, r0, left, right);
+    let mut prev_instring: u64 = if in_str { u64::MAX } else { 0 };
+    let mut prev_escaped: u64 = esc as u64;
+    let mut l = l0;
+    let mut r = r0;
+    let got = skip_container_loop(&d, &mut prev_instring, &mut prev_escaped, &mut l, &mut r, left, right);
+    assert_eq!(got.map(|x| x.get()), exp);
+    if exp.is_none() {
+        assert_eq!(prev_instring, if e_in { u64::MAX } else { 0 });
+        assert_eq!(prev_escaped, e_esc as u64);
+        assert_eq!(l, e_l);
+        assert_eq!(r, e_r);
+    }
+    kani::cover!(esc && w[0] == b'"' && exp.is_none() && e_in);
+    kani::cover!(exp.is_some() && in_str);
+    kani::cover!(exp.is_none() && !e_in && e_l > l0);
+}
+
+#[kani::proof]
+#[kani::unwind(4)]
+fn k_block_step_head_arr() {
+    block_step_head_body(b'[', b']');
+}
+
 #[kani::proof]
 #[kani::unwind(18)]
 fn k_block_step_obj_w0() {
